@@ -19,8 +19,10 @@ theorem shapes :
     Sticky.acceptParseOk = true ∧ Sticky.tokenHeaderHandlingOk = true ∧ Sticky.lostSkipsDispatch = true ∧
     StickyClient.sendsAccept = true ∧ StickyClient.sendsTokenIffHeld = true ∧
     StickyClient.captureOrder = ["set", "clear"] ∧ StickyClient.captureReadsOk = true ∧
-    StickyClient.capturingVerbs = ["post", "get", "options", "delete"] ∧ Sticky.sinkCloseOnHitOnly = false := by decide
+    StickyClient.capturingVerbs = ["post", "get", "options", "delete"] ∧ Sticky.sinkCloseOnHitOnly = false ∧
+    Sticky.sinkCloseAssignsHit = false := by decide
 
+theorem assignsHit_false : Sticky.sinkCloseAssignsHit = false := by decide
 theorem emitSession_true : emitSession = true := by decide
 theorem emitClose_true : emitClose = true := by decide
 
@@ -97,8 +99,9 @@ theorem step_JE (cfg : Cfg) (wk : Nat) (ident : Identity) (c : Nat) (base : Opti
       · rename_i hacc hsc
         split
         · exact h
-        · have hseal : sealOk cfg W.env.now (W.env.now + ttl.getD cfg.defaultTtl) = true := hs
-          rw [if_neg (by simp [hseal])]
+        · have hs' : openSealOk cfg W.env.now ttl = true := hs
+          have hseal := (openSealOk_seal hs').1
+          rw [if_neg (by simp [hs'])]
           -- the open succeeds
           have hnone : rs.sc = none := by
             cases hh : rs.sc with
@@ -121,12 +124,12 @@ theorem step_JE (cfg : Cfg) (wk : Nat) (ident : Identity) (c : Nat) (base : Opti
     | none =>
       unfold JE at h ⊢
       simp only [hsc] at h ⊢
-      exact ⟨h.1, Or.inl (by simp [shapes.2.2.1])⟩
+      exact ⟨h.1, Or.inl (by simp [shapes.2.2.1, assignsHit_false])⟩
     | some p =>
       obtain ⟨sid, lbl⟩ := p
       unfold JE at h ⊢
       simp only [hsc] at h ⊢
-      refine ⟨?_, Or.inl (by simp [shapes.2.2.1])⟩
+      refine ⟨?_, Or.inl (by simp [shapes.2.2.1, assignsHit_false])⟩
       intro x hx
       rw [mem_liveOf] at hx
       have hx' := Reg.mem_close.mp hx.1
@@ -562,8 +565,8 @@ theorem close_sets_closed (cfg : Cfg) (wk : Nat) (ident : Identity) (c : Nat) (W
     (stepAction cfg wk ident c W rs .close).2.1.closed = true := by
   simp only [stepAction, stepActionP]
   cases rs.sc with
-  | none => simp [shapes.2.2.1]
-  | some p => obtain ⟨sid, l⟩ := p; simp [shapes.2.2.1]
+  | none => simp [shapes.2.2.1, assignsHit_false]
+  | some p => obtain ⟨sid, l⟩ := p; simp [shapes.2.2.1, assignsHit_false]
 
 theorem step_keeps_closed (cfg : Cfg) (wk : Nat) (ident : Identity) (c : Nat) (W : World) (rs : RS) (a : Action)
     (ha : notOpen a = true) (h : rs.closed = true) : (stepAction cfg wk ident c W rs a).2.1.closed = true := by
@@ -611,7 +614,7 @@ theorem viewOK_congr {Wire : Type} (C : Codec Wire) (r r' : Reg) (c : Nat) (v : 
 theorem viewCall_frame {Wire : Type} [DecidableEq Wire] (C : Codec Wire) (cfg : Cfg) (wk : Nat) (W : World) (v : View Wire)
     (ident : Identity) (c : Nat) (script : List Action) (swallow : Bool)
     (hreg : RegInv W) (hst : NoStale C W.reg c v) (hb : W.env.sidCtr + script.length ≤ 256 ^ 12)
-    (hapi : ∀ a ∈ script, a.isApi = true) :
+    (hapi : ∀ a ∈ script, a.isApi = true) (httl : ∀ a ∈ script, TtlNonneg cfg a) :
     RegInv (viewCall C cfg wk W v ident c script swallow).1 ∧
     (∀ x ∈ W.reg.entries, x.owner ≠ c → x ∈ (viewCall C cfg wk W v ident c script swallow).1.reg.entries) ∧
     (∀ x ∈ (viewCall C cfg wk W v ident c script swallow).1.reg.entries, x ∈ W.reg.entries ∨ x.owner = c) := by
@@ -623,7 +626,7 @@ theorem viewCall_frame {Wire : Type} [DecidableEq Wire] (C : Codec Wire) (cfg : 
     simp only [hrc, hri]
     have h0 : FR c W.reg W { accept := acceptOpens (v.request ident c).accept } :=
       ⟨fun x hx _ => hx, fun x hx => Or.inl hx, fun sid l hs => by simp at hs⟩
-    have hJ := run_inv cfg wk ident c W.reg swallow script hapi W _ hb hreg h0
+    have hJ := run_inv cfg wk ident c W.reg swallow script hapi httl W _ hb hreg h0
     generalize runScript cfg wk ident c swallow W { accept := acceptOpens (v.request ident c).accept } script = res at hJ
     obtain ⟨W₂, rs, log, err⟩ := res
     exact ⟨hJ.1, hJ.2.1, hJ.2.2.1⟩
@@ -645,7 +648,7 @@ theorem viewCall_frame {Wire : Type} [DecidableEq Wire] (C : Codec Wire) (cfg : 
       have hy' := mem_liveOf.mp hy
       have : x = y := hreg.1 x hx y hy'.1 (by rw [hxs, ← hs.1]; exact designates_fun hdes hyd)
       rw [this]; exact hy'.2
-    have hJ := run_inv cfg wk ident c W.reg swallow script hapi W _ hb hreg h0
+    have hJ := run_inv cfg wk ident c W.reg swallow script hapi httl W _ hb hreg h0
     generalize runScript cfg wk ident c swallow W { sc := some (e.sid, e.state), accept := acceptOpens (v.request ident c).accept, lockHeld := some e.sid } script = res at hJ
     obtain ⟨W₂, rs, log, err⟩ := res
     exact ⟨hJ.1, hJ.2.1, hJ.2.2.1⟩
@@ -666,11 +669,11 @@ theorem step_HInv {Wire : Type} [DecidableEq Wire] (C : Codec Wire) (cfg : Cfg) 
   obtain ⟨hviews, hreg⟩ := hinv
   cases op with
   | call c ident script swallow =>
-    obtain ⟨hseal, hb, hapi⟩ := hok
+    obtain ⟨hseal, hb, httl, hapi⟩ := hok
     have hexp : ∀ e ∈ s.W.reg.entries, (∃ w, (s.views c).token = some w ∧ Designates C w e.sid) → expired e s.W.env.now = false :=
       fun e he _ => hreg.2.2 e he
     have hcaller := C27_view_aux C cfg wk s.W (s.views c) ident c script swallow hseal hapi hexp (hviews c)
-    have hframe := viewCall_frame C cfg wk s.W (s.views c) ident c script swallow hreg (hviews c).2 hb hapi
+    have hframe := viewCall_frame C cfg wk s.W (s.views c) ident c script swallow hreg (hviews c).2 hb hapi httl
     simp only [Sys.step]
     refine ⟨fun c' => ?_, hframe.1⟩
     by_cases hc : c' = c
@@ -927,7 +930,7 @@ def ops : List SysOp :=
    .call 2 .anon [.close, .open 4 (some 5)] true]
 
 example : RunOK codec cfg 0 s0 ops := by
-  simp only [ops, RunOK, OpOK, List.forall_mem_cons, List.not_mem_nil, false_imp_iff, implies_true, and_true, SealFits, List.length_cons, List.length_nil]
+  simp only [ops, RunOK, OpOK, List.forall_mem_cons, List.not_mem_nil, false_imp_iff, implies_true, and_true, SealFits, TtlNonneg, List.length_cons, List.length_nil]
   decide
 
 example : ((s0.run codec cfg 0 ops).views 2).token.isSome = true ∧ ((s0.run codec cfg 0 ops).views 1).token = none ∧
